@@ -3,11 +3,13 @@ package c05
 import (
 	"bufio"
 	"bytes"
+	"compress/gzip"
 	"encoding/binary"
 	"encoding/json"
 	"errors"
 	"fmt"
 	"io"
+	"net/http"
 	"os"
 	"runtime"
 	"sort"
@@ -25,6 +27,7 @@ import (
 	"github.com/influxdata/kapacitor/keyvalue"
 	"github.com/influxdata/kapacitor/models"
 	"github.com/influxdata/kapacitor/pipeline"
+	"github.com/influxdata/kapacitor/services/httpd"
 	"github.com/influxdata/kapacitor/tick"
 	"github.com/influxdata/kapacitor/tick/ast"
 	"github.com/influxdata/kapacitor/tick/stateful"
@@ -173,6 +176,8 @@ func execOp(line string) string {
 		return execUDFWrite(t[1:])
 	case "live":
 		return execLive(t[1], t[2])
+	case "http":
+		return execHTTP(t[1], un(t[2]), t[3], un(t[4]))
 	case "livex":
 		return execLiveX(t[1], un(t[3]), t[4:])
 	}
@@ -927,4 +932,53 @@ func execLiveX(node, expr string, pts []string) string {
 	res := fmt.Sprintf("%d %d %d/%d", count(id, true), te, count(oid, false), total)
 	t.Rec.Reset()
 	return res
+}
+
+// ---------------------------------------------------------------------------------------------
+// services/httpd/handler.go: `http <method> <path?query> <plain|gzip|badgzip|truncgzip> <body>`
+// against the real httpd service of the worker's TaskMaster (write endpoint wired to the TaskMaster).
+// Observation: the status code, or `noresp` when the server dropped the connection without answering
+// (what net/http does when a handler panics).
+
+var httpOnce sync.Once
+
+func execHTTP(method, path, enc, body string) string {
+	t := sharedTM()
+	httpOnce.Do(func() {
+		t.HTTPD.Handler.PointsWriter = t.TM
+		t.HTTPD.Handler.DiagService = kit.Diag() // what the real server wires for /loglevel
+	})
+	var rd io.Reader
+	switch enc {
+	case "gzip", "truncgzip":
+		var b bytes.Buffer
+		zw := gzip.NewWriter(&b)
+		zw.Write([]byte(body))
+		zw.Close()
+		data := b.Bytes()
+		if enc == "truncgzip" && len(data) > 4 {
+			data = data[:len(data)/2]
+		}
+		rd = bytes.NewReader(data)
+	default:
+		rd = strings.NewReader(body)
+	}
+	req, err := http.NewRequest(method, strings.TrimSuffix(t.HTTPD.URL(), httpd.BasePath)+path, rd)
+	if err != nil {
+		return "badreq" // the client library refuses the request: nothing reaches the server
+	}
+	if enc != "plain" {
+		req.Header.Set("Content-Encoding", "gzip")
+	}
+	cl := &http.Client{Timeout: 10 * time.Second, Transport: &http.Transport{DisableKeepAlives: true}}
+	resp, err := cl.Do(req)
+	if err != nil {
+		if ne, ok := err.(interface{ Timeout() bool }); ok && ne.Timeout() {
+			return "X hang"
+		}
+		return "noresp"
+	}
+	io.Copy(io.Discard, resp.Body)
+	resp.Body.Close()
+	return strconv.Itoa(resp.StatusCode)
 }
